@@ -614,7 +614,8 @@ def run(ck):
     atmosphere_lemmas(ck, fcs)
     slant_depth_obligations(ck)
     yield_obligations(ck)
-    run_body_obligations(ck)
+    run_body_obligations(ck, (2, 7, 5))
+    run_body_obligations(ck, (7, 5, 2))  # maximum at the first step: a step that a cloud can hide
     table_obligations(ck)
     # event by event: EAS.__call__ hands each in-range event's own angle, altitude, energy and location to the kernel (same mask on all five);
     # the 1-degree clamp reaches every use of the angle, including the rescaling to the detector altitude
@@ -749,7 +750,7 @@ def aerosol_native():
 # ------------------------------------------------------------------------------------------
 
 
-def run_body_obligations(ck):
+def run_body_obligations(ck, rn_values=(2, 7, 5)):
     """CphotAng.run executed on a shower of 3 explicit steps x 2 wavelength bins with every helper replaced by its contract (abstract
     per-step functions, arguments recorded): which helper gets which columns, the cloud masking of the yield, the yield-weighted mean
     angle, the spot area at the step of maximum particle number, density = photon sum / (2 area) x rescaling, angle in degrees"""
@@ -758,7 +759,7 @@ def run_body_obligations(ck):
     from nuspacesim.simulation.eas_optical.cphotang import CphotAng
     from nssvc.sym import EA
 
-    qn = "cphotang:CphotAng.run[body]"
+    qn = "cphotang:CphotAng.run[body,N=%s]" % "-".join(str(x) for x in rn_values)
     n, w = 3, 2
     F = sp.Function
 
@@ -773,7 +774,7 @@ def run_body_obligations(ck):
         return EA(a)
 
     zs, dg, oz, tp, nair, s_, e2 = col("z", positive=True), col("delgram"), col("ZonZ"), col("tp"), col("n"), col("s"), col("e2")
-    rn = [sp.Integer(2), sp.Integer(7), sp.Integer(5)]  # concrete particle numbers: the maximum is at step 1
+    rn = [sp.Integer(int(x)) for x in rn_values]  # concrete particle numbers (the position of the maximum is part of the instance)
     Y = [[sp.Symbol("Y_%d_%d" % (k, j), nonnegative=True) for j in range(w)] for k in range(n)]
     beta, alt, E = sp.Symbol("betaE", positive=True), sp.Symbol("alt", nonnegative=True), sp.Symbol("E100", positive=True)
     photsum, sig = sp.Symbol("photsum", nonnegative=True), sp.Symbol("sigma_theta", nonnegative=True)
@@ -873,58 +874,101 @@ def run_body_obligations(ck):
     E0 = [F("E0")(x) for x in s_]
     Tf = [F("Tfrac")(k) for k in range(n)]
     dist = [F("dist")(k) for k in range(n)]
-    imax = 1
+    imax = max(range(n), key=lambda k: (rn[k], -k))
     res = {"early": True, "calls": True, "cloud": True, "zero": True, "mean": True, "dens": True, "ang": True}
     notes = []
     n_full = 0
+    # the cloud top can sit in n+1 places relative to the (increasing) step altitudes; every path is checked under every placement
+    # consistent with its branch conditions, whether the code decides the placement by branching (masked store) or keeps it inside
+    # the terms (np.where)
+    def under(cfg):
+        kt, kf = set(), set()
+        for k in range(n):
+            lt, ge = sp.Lt(zs[k], ctop), sp.Ge(zs[k], ctop)
+            (kt if cfg[k] else kf).add(lt)
+            (kf if cfg[k] else kt).add(ge)
+            (kt if cfg[k] else kf).add(sp.Gt(ctop, zs[k]))
+            (kf if cfg[k] else kt).add(sp.Le(ctop, zs[k]))
+        return frozenset(kt), frozenset(kf)
+
+    def simp(x, kt, kf):
+        if isinstance(x, (list, tuple)):
+            return type(x)(simp(q, kt, kf) for q in x)
+        if isinstance(x, sp.Basic):
+            return sym.ite_simplify(x, kt, kf)
+        return x
+
+    def truth(c, kt, kf):
+        if c in kt:
+            return True
+        if c in kf:
+            return False
+        return None
+
+    def tri(key, st_):
+        if st_ == "refuted" or res[key] is False:
+            res[key] = False
+        elif st_ != "proved" and res[key] is True:
+            res[key] = None
+
+    configs = [tuple(k < m for k in range(n)) for m in range(n + 1)]
     for p, lg in zip(paths, logs):
-        pcs = set(p.pc)
-        den, ang = harness.term(p.result[0]), harness.term(p.result[1])
-        below = [sp.Lt(zs[k], ctop) in pcs for k in range(n)]
-        if sp.Lt(zs[n - 2], ctop) in pcs:
-            if not (den == 0 and ang == 0 and "photon_sum" not in lg):
-                res["early"] = False
-                notes.append("early exit path returns %s" % ((den, ang),))
-            continue
-        if not all((sp.Lt(zs[k], ctop) in pcs) or (sp.Ge(zs[k], ctop) in pcs) for k in range(n)):
-            res["cloud"] = False
-            notes.append("a step's position relative to the cloud top is not decided on path %s" % p.pc)
-            continue
-        Ym = [[sp.Integer(0) if below[k] else Y[k][j] for j in range(w)] for k in range(n)]
-        want_calls = {
-            "slant_depth": [(alt, sp.sin(thv))], "valid_arrays": [(SLANT, Eg)], "e0": [((n,), s_)], "threshold": [(nair,)], "tracklen": [(E0, eth, s_)],
-            "d_to_det": [(thv, tp, zs)], "sphoton_yeild": [(thC, rn, dg, oz, zs, tp)],
-            "photon_sum": [(Ym, dist, thC, e2, eth, Tf, E0, s_, Eg)],
-        }
-        for name, wantc in want_calls.items():
-            gotc = lg.get(name, [])
-            same = len(gotc) == len(wantc) and all(len(g) == len(w_) and all(_same_term(x, y) for x, y in zip(g, w_)) for g, w_ in zip(gotc, wantc))
-            if not same:
-                res["calls" if name != "photon_sum" else "cloud"] = False
-                notes.append("%s called with %s" % (name, str(gotc)[:200]))
-        tap = [sum(Ym[k]) * Tf[k] for k in range(n)]
-        Wt = sum(tap)
-        if sp.Eq(Wt, 0) in pcs or (sp.expand(Wt) == 0):
-            if not (den == 0 and ang == 0):
-                res["zero"] = False
-                notes.append("no light above the cloud but result %s" % ((den, ang),))
-            continue
-        n_full += 1
-        ave = sum(tap[k] * thC[k] for k in range(n)) / Wt
-        sg = lg.get("cher_ang_sig_i", [])
-        if not (len(sg) == 1 and _same_term(sg[0], (tap, Wt, thC, ave))):
-            res["mean"] = False
-            notes.append("cher_ang_sig_i called with %s" % str(sg)[:300])
-        want_den = sp.Rational(1, 2) * photsum / (P * (sp.tan(ave) * 1000 * dist[imax]) ** 2) * (dsin(O_) / dsin(ZD)) ** 2
-        want_ang = (ave + sig) * 180 / sp.pi
-        st_ = prover.identity_decide(den, want_den, seed=ck.seed)[0]
-        if st_ != "proved":
-            res["dens"] = False if st_ == "refuted" or res["dens"] is False else None
-            notes.append("density %s" % str(den)[:200])
-        st_ = prover.identity_decide(ang, want_ang, seed=ck.seed)[0]
-        if st_ != "proved":
-            res["ang"] = False if st_ == "refuted" or res["ang"] is False else None
-            notes.append("angle %s" % str(ang)[:200])
+        for cfg in configs:
+            kt, kf = under(cfg)
+            tv = [truth(c, kt, kf) for c in p.pc]
+            if any(t_ is False for t_ in tv):
+                continue  # this placement contradicts the path
+            den, ang = simp(harness.term(p.result[0]), kt, kf), simp(harness.term(p.result[1]), kt, kf)
+            lgs = {k_: simp(v_, kt, kf) for k_, v_ in lg.items()}
+            below = list(cfg)
+            if below[n - 2]:
+                if not (den == 0 and ang == 0 and "photon_sum" not in lg):
+                    res["early"] = False
+                    notes.append("cloud top above the second-to-last step but the path returns %s" % ((den, ang),))
+                continue
+            Ym = [[sp.Integer(0) if below[k] else Y[k][j] for j in range(w)] for k in range(n)]
+            want_calls = {
+                "slant_depth": [(alt, sp.sin(thv))], "valid_arrays": [(SLANT, Eg)], "e0": [((n,), s_)], "threshold": [(nair,)], "tracklen": [(E0, eth, s_)],
+                "d_to_det": [(thv, tp, zs)], "sphoton_yeild": [(thC, rn, dg, oz, zs, tp)],
+            }
+            for name, wantc in want_calls.items():
+                gotc = lgs.get(name, [])
+                same_ = len(gotc) == len(wantc) and all(len(g) == len(w_) and all(_same_term(x, y) for x, y in zip(g, w_)) for g, w_ in zip(gotc, wantc))
+                if not same_:
+                    res["calls"] = False
+                    notes.append("%s called with %s" % (name, str(gotc)[:200]))
+            tap = [sum(Ym[k]) * Tf[k] for k in range(n)]
+            Wt = sum(tap)
+            # which side of the `total weight == 0` test is this path on?
+            zero_side = None
+            for c in p.pc:
+                if isinstance(c, (sp.Eq, sp.Ne)) and c.rhs == 0 and truth(c, kt, kf) is None:
+                    if prover.identity_decide(simp(c.lhs, kt, kf), Wt, seed=ck.seed)[0] == "proved":
+                        zero_side = isinstance(c, sp.Eq)
+            if zero_side is True or sp.expand(Wt) == 0:
+                if not (den == 0 and ang == 0):
+                    res["zero"] = False
+                    notes.append("no light above the cloud but result %s" % ((den, ang),))
+                continue
+            gotp = lgs.get("photon_sum", [])
+            wantp = (Ym, dist, thC, e2, eth, Tf, E0, s_, Eg)
+            if not (len(gotp) == 1 and len(gotp[0]) == len(wantp) and all(_same_term(x, y) for x, y in zip(gotp[0], wantp))):
+                res["cloud"] = False
+                notes.append("cloud top placement %s: photon_sum called with %s" % (cfg, str(gotp)[:300]))
+            n_full += 1
+            ave = sum(tap[k] * thC[k] for k in range(n)) / Wt
+            sg = lgs.get("cher_ang_sig_i", [])
+            if not (len(sg) == 1 and _same_term(sg[0], (tap, Wt, thC, ave))):
+                res["mean"] = False
+                notes.append("cher_ang_sig_i called with %s" % str(sg)[:300])
+            want_den = sp.Rational(1, 2) * photsum / (P * (sp.tan(ave) * 1000 * dist[imax]) ** 2) * (dsin(O_) / dsin(ZD)) ** 2
+            want_ang = (ave + sig) * 180 / sp.pi
+            tri("dens", prover.identity_decide(den, want_den, seed=ck.seed)[0])
+            if res["dens"] is not True:
+                notes.append("placement %s: density %s" % (cfg, str(den)[:160]))
+            tri("ang", prover.identity_decide(ang, want_ang, seed=ck.seed)[0])
+            if res["ang"] is not True:
+                notes.append("placement %s: angle %s" % (cfg, str(ang)[:160]))
     if n_full == 0:
         ck.vacuity["failed"].append("%s: no path reached the final formulas" % qn)
     be = "symbolic execution on explicit arrays (%d steps x %d bins, helpers by contract) + sympy normal form" % (n, w)
